@@ -106,7 +106,7 @@ mod harness {
         if d < base { Some(d) } else { None }
     }
     fn check_parse(base: u32, allow_minus: bool) {
-        const A: [&str; 8] = ["0", "7", "9", "a", "F", "g", "-", "é"];
+        const A: [&str; 12] = ["0", "7", "9", "a", "F", "g", "-", "é", ":", "?", "@", "/"];   // incl. the characters just outside 0-9 / A-F in ASCII order
         let (s, _) = build(0, &A, 3);
         let b = s.as_bytes();
         let r = match base { 10 => builtin_parse_int(IStr(s)), 8 => builtin_parse_octal(IStr(s)), _ => builtin_parse_hex(IStr(s)) };
@@ -119,6 +119,21 @@ mod harness {
                        assert!(v == if neg { -(val as f64) } else { val as f64 }, "obligation: value is the positional value of the digits"); }
             Err(_) => assert!(!ok, "obligation: every well-formed integer literal of the base parses"),
         }
+    }
+    /// digit classification, complete: every one-character ASCII string, all three bases
+    #[kani::proof]
+    #[kani::unwind(4)]
+    #[kani::stub(alloc::fmt::format, stub_format)]
+    fn h_digit_table() {
+        let c: u8 = kani::any(); kani::assume(c < 0x80);
+        unsafe { BUFS[0][0] = c; }
+        let s: &'static str = unsafe { std::str::from_utf8_unchecked(&BUFS[0][..1]) };
+        let r8 = builtin_parse_octal(IStr(s)); let r10 = builtin_parse_int(IStr(s)); let r16 = builtin_parse_hex(IStr(s));
+        assert!(match (&r8, digit_val(c, 8)) { (Ok(v), Some(d)) => *v == d as f64, (Err(_), None) => true, _ => false }, "obligation: parseOctal accepts exactly the characters 0-7, with their digit value");
+        assert!(match (&r10, digit_val(c, 10)) { (Ok(v), Some(d)) => *v == d as f64, (Err(_), None) => true, _ => false }, "obligation: parseInt accepts exactly the characters 0-9, with their digit value");
+        assert!(match (&r16, digit_val(c, 16)) { (Ok(v), Some(d)) => *v == d as f64, (Err(_), None) => true, _ => false }, "obligation: parseHex accepts exactly the characters 0-9 a-f A-F, with their digit value");
+        std::mem::forget((r8, r10, r16));
+        kani::cover!(c == b':'); kani::cover!(c == b'f');
     }
     #[kani::proof]
     #[kani::unwind(14)]
